@@ -4,7 +4,7 @@ from h5harness import *
 
 RULE = ("fault enumeration: an unstorable value (a sequence containing None, which h5py refuses) injected at every position "
         "— each key of attrs, each key of dnplab_attrs, each parameter of each history step, each entry of a workspace "
-        "(data object or plain dictionary) — x {no previous file, previously saved file} x {overwrite on, off}, plus the "
+        "(data object or plain dictionary) — x {no previous file, previously saved file, existing non-HDF5 file (text / empty)} x {overwrite on, off}, plus the "
         "fault-free saves; the destination's outcome class (absent / loads equal to the previous content / does not load / "
         "loads something else) and whether save raised are compared with the Lean model of save_h5 and checked against the "
         "property directly; non-trivial = a fault with a previous file present")
@@ -47,7 +47,7 @@ def cases(tier, seed):
     out = []
     faults = [("none", o)] + fault_positions(o)
     for label, m in faults:
-        for prev in (None, prev_single, prev_ws):
+        for prev in (None, prev_single, prev_ws, {"other": 1}, {"other": 2}):
             for ow in (True, False):
                 out.append({"single": m, "prev": prev, "overwrite": ow, "label": "obj:" + label})
     # workspace entries: fault in the k-th entry (data object or plain dict)
@@ -67,6 +67,8 @@ def cases(tier, seed):
 def outcome_class(state):
     if not state["exists"]:
         return "absent"
+    if state.get("bytes_same"):
+        return "previous"          # the non-HDF5 file that was there is still there, byte for byte
     if not state["loads"]:
         return "does-not-load"
     if state["prev_loaded"] is not None and num_eq(state["loaded"], state["prev_loaded"]):
@@ -95,7 +97,10 @@ def run(tier, seed, escalate=False):
             diffs = []
             if bool(m["raised"]) != bool(i["raised"]):
                 diffs.append("raised:%s!=%s" % (m["raised"], i["raised"]))
-            if (m["disk"] is None) != (icls == "absent"):
+            if m["disk"] is not None and "other" in m["disk"]:
+                if icls != "previous":
+                    diffs.append("non-hdf5-destination-not-kept:impl-%s" % icls)
+            elif (m["disk"] is None) != (icls == "absent"):
                 diffs.append("existence:model-%s-impl-%s" % ("absent" if m["disk"] is None else "present", icls))
             elif m["disk"] is not None and i["loads"] and not num_eq(m["disk"]["loaded"], i["loaded"]):
                 diffs.append("content")
